@@ -4,6 +4,6 @@ EXTENDS ISOTables, TLCExt
 VARIABLE x
 Init == x = 0
 Next == /\ x = 0 /\ x' = 1
-        /\ PrintT(<<"SELFCHECK", "GF256", GFSelfCheck>>)
-        /\ PrintT(<<"SELFCHECK", "ISOTables", ISOSelfCheck>>)
+        /\ PrintT(<<"SELFCHECK", "GF256", GFSelfCheck(0)>>)
+        /\ PrintT(<<"SELFCHECK", "ISOTables", ISOSelfCheck(0)>>)
 =============================================================================
